@@ -9,9 +9,9 @@ CONSTANTS
   GenOn = FALSE
   Fam = "c09"
   MaxKill = 0
-  MaxDetach = 1
+  MaxDetach = 0
   MaxEnv = 1
-  NPS = 5
+  NPS = 3
   MaxFail = 0
 INVARIANTS AckedExclusive AckedOnDisk OneWriter GcAlone
 VIEW MCView
